@@ -15,7 +15,7 @@ echo "  suite(root) with change: $(cd $T/with && go test -vet=off -count=1 . 2>&
 demo=$(ls $SD/*_test.go 2>/dev/null | head -1)
 if [ -n "$demo" ]; then
   pkg=$(grep -m1 '^package ' $demo | awk '{print $2}')
-  case $pkg in randomness_test) dir=. ;; main) dir=${DEMODIR:-tools/rddetector} ;; randomness) dir=. ;; detect|detect_test) dir=detect ;; fft) dir=fft ;; *) dir=. ;; esac
+  case $pkg in randomness_test) dir=. ;; fft_test) dir=fft ;; main) dir=${DEMODIR:-tools/rddetector} ;; randomness) dir=. ;; detect|detect_test) dir=detect ;; fft) dir=fft ;; *) dir=. ;; esac
   tname=$(grep -o 'func Test[A-Za-z0-9_]*' $demo | sed 's/func //' | paste -sd'|')
   for v in with without; do
     cp $demo $T/$v/$dir/zz_seed_demo_test.go
